@@ -101,6 +101,9 @@ struct Ctl {
     /// block every `next` while true
     hold_all: bool,
     flush_err: bool,
+    /// delay inside every `flush`
+    flush_slow_us: u64,
+    flushes: u64,
     /// delay inside every `next`
     slow_us: u64,
     nexts: u64,
@@ -159,6 +162,12 @@ impl StreamCtl {
     }
     pub fn flush_errors(&self, on: bool) {
         self.inner.0.lock().unwrap().flush_err = on;
+    }
+    pub fn slow_flush(&self, us: u64) {
+        self.inner.0.lock().unwrap().flush_slow_us = us;
+    }
+    pub fn flushes(&self) -> u64 {
+        self.inner.0.lock().unwrap().flushes
     }
     pub fn slow(&self, us: u64) {
         self.inner.0.lock().unwrap().slow_us = us;
@@ -245,14 +254,33 @@ impl EntryIoStream for RecStream {
             Res::Val => Err(IoStreamError::Validation(ValidationError::invalid(
                 "scripted validation error",
             ))),
-            Res::Io => Err(IoStreamError::Io(io::Error::other("scripted io error"))),
+            Res::Io => {
+                // vary the kind of I/O error: a sink must treat every kind alike
+                const KINDS: [io::ErrorKind; 6] = [
+                    io::ErrorKind::Other,
+                    io::ErrorKind::Interrupted,
+                    io::ErrorKind::WouldBlock,
+                    io::ErrorKind::BrokenPipe,
+                    io::ErrorKind::TimedOut,
+                    io::ErrorKind::WriteZero,
+                ];
+                let k = KINDS[(c.id.unwrap_or(0) % KINDS.len() as u64) as usize];
+                Err(IoStreamError::Io(io::Error::new(k, "scripted io error")))
+            }
         }
     }
 
     fn flush(&mut self) -> io::Result<()> {
-        let err = self.ctl.inner.0.lock().unwrap().flush_err;
+        let (err, slow) = {
+            let mut g = self.ctl.inner.0.lock().unwrap();
+            g.flushes += 1;
+            (g.flush_err, g.flush_slow_us)
+        };
         if self.ctl.live() {
             trace::ev_dedup(self.tag(json!({"ev":"Flush","err": if err {1} else {0}})));
+        }
+        if slow > 0 {
+            std::thread::sleep(Duration::from_micros(slow));
         }
         if err {
             Err(io::Error::other("scripted flush error"))
